@@ -311,6 +311,12 @@ def doc_cases():
       else:
         el_ = "E\t*\tc+\tb+\t0\t1\t{}\t{}\t*".format(b, e)
         fl_ = "F\tb\tx+\t{}\t{}\t0\t1\t*".format(b, e)
+      # the judged segment on either side of the edge, the other side with
+      # and without a sequence (d: `*`)
+      more = []
+      for other in ("c", "d"):
+        more.append("E\t*\t{}+\t{}+\t{}\t{}\t0\t1\t*".format(seg, other, b, e))
+        more.append("E\t*\t{}+\t{}+\t0\t1\t{}\t{}\t*".format(other, seg, b, e))
       if line_ok is None:
         continue
       exp = line_ok and dollar_ok
@@ -321,6 +327,10 @@ def doc_cases():
       cx = "dollar-last-position:" + ("sequence" if seg == "a" else "placeholder-sequence")
       out.append((cx, S2 + [el_], "gfa2", "standard", exp))
       out.append((cx, S2 + [fl_], "gfa2", "standard", exp))
+      for ml in more:
+        if ml != el_:
+          out.append((cx, S2 + ["S\td\t3\t*", ml], "gfa2", "standard", exp))
+          out.append((cx, [ml, "S\td\t3\t*"] + S2, "gfa2", "standard", exp))
   # rGFA
   sn_ok = "SN:Z:chr1\tSO:i:0\tSR:i:0"
   seg_variants = [
